@@ -9,8 +9,10 @@ import subprocess
 import sys
 import time
 
-VERIF = "/verif"
-REPO = "/repo"
+# the registered checks always run in /verif against /repo; the overrides exist
+# only so that seeded changes can be evaluated on scratch copies in parallel
+VERIF = os.environ.get("VERIF_ROOT", "/verif")
+REPO = os.environ.get("VERIF_REPO", "/repo")
 CACHE = os.path.join(VERIF, ".cache")
 COQ = os.path.join(VERIF, "coq")
 DRIVER_DIR = os.path.join(VERIF, "driver")
@@ -86,8 +88,14 @@ def build_driver():
 def build_harness(cfg):
     tool, profile, feats, _ = CONFIGS[cfg]
     tdir = os.path.join(CACHE, "target-" + cfg)
+    hdir = HARNESS_DIR
+    if REPO != "/repo":
+        hdir = os.path.join(CACHE, "harness-alt")
+        sh("rm -rf %s && mkdir -p %s && cp -r %s/src %s/Cargo.toml %s/.cargo %s/" % (hdir, hdir, HARNESS_DIR, HARNESS_DIR, HARNESS_DIR, hdir))
+        t = open(os.path.join(hdir, "Cargo.toml")).read().replace('path = "/repo"', 'path = "%s"' % REPO)
+        open(os.path.join(hdir, "Cargo.toml"), "w").write(t)
     lock_src = os.path.join(REPO, "Cargo.lock")
-    lock_dst = os.path.join(HARNESS_DIR, "Cargo.lock")
+    lock_dst = os.path.join(hdir, "Cargo.lock")
     if not os.path.exists(lock_dst):
         sh("cp %s %s" % (lock_src, lock_dst))
     cmd = "cargo %s build --offline %s %s" % (
@@ -95,7 +103,7 @@ def build_harness(cfg):
         ("--features " + feats) if feats else "")
     env = {"RUSTFLAGS": "--cfg circular_buffer_verif", "CARGO_TARGET_DIR": tdir,
            "CARGO_NET_OFFLINE": "true"}
-    rc, out = sh(cmd, cwd=HARNESS_DIR, env=env, timeout=1500)
+    rc, out = sh(cmd, cwd=hdir, env=env, timeout=1500)
     exe = os.path.join(tdir, "release" if profile == "release" else "debug", "cbharness")
     if rc != 0 or not os.path.exists(exe):
         return False, out
